@@ -76,6 +76,10 @@ def mutants(xml, version):
             if tag in SINGLE and (stripped.endswith('/>') or text_elem):
                 yield (f'duplicate:{tag}', f'line {i}: {tag} duplicated',
                        '\n'.join(lines[:i + 1] + [ln] + lines[i + 1:]))
+            if tag in SINGLE:
+                # the repeated child as a bare element (no attributes, no content) in front of the real one
+                yield (f'duplicate-bare-first:{tag}', f'line {i}: bare <{tag}/> inserted before the {tag} element',
+                       '\n'.join(lines[:i] + [f'<{tag}/>'] + lines[i:]))
         if pure_open and tag not in ('Lemma', 'ExternalLemma', 'Form', 'ExternalForm'):
             yield ('unknown-element', f'<Foo/> inserted after line {i}',
                    '\n'.join(lines[:i + 1] + ['<Foo/>'] + lines[i + 1:]))
@@ -488,6 +492,15 @@ def space(tier, seed):
                         continue
                     cases.append({'c': 'scan', 'doc': multi, 'style': st, 'add': True,
                                   'set': [[0, fld, p]]})
+    # text that looks like the start of a comment / CDATA section / processing instruction, written inside a CDATA
+    # section (and, escaped, as ordinary text) in front of further lexicons and real comments
+    for v in ('1.0', '1.3'):
+        multi = {'v': v, 'kind': 'multi', 'order': ['M', 'S', 'T']}
+        for payload in ('open <!-- never closed', 'a <![CDATA[ b', 'pi <? c', '--> <!--'):
+            for st in ({'cdata': True, 'comments': True}, {'cdata': True, 'tagcomments': True}, {'comments': True}):
+                cases.append({'c': 'scan', 'doc': multi, 'style': st, 'add': True,
+                              'set': [[0, 'synsets', 0, 'definitions', 0, 'text', payload],
+                                      [1, 'synsets', 0, 'definitions', 0, 'text', payload]]})
     # block-boundary sweeps: the pre-scan and the parser must not depend on where a buffer boundary falls
     taglen = len(_lex_tag('bb', 'multi')) + 2
     if tier == 'thorough':
